@@ -15,6 +15,7 @@ class Outcome:
         self.results = {}    # id -> harness result
         self.cases = {}      # id -> case
         self.problems = []   # infrastructure-level correspondence problems (strings)
+        self.panicked = set()
 
 
 def evaluate(P, binp, cases, tag="main"):
@@ -35,8 +36,17 @@ def evaluate(P, binp, cases, tag="main"):
             o.problems.append("no harness result for case %s" % c["id"])
             continue
         if "harness_panic" in r:
-            o.rows[c["id"]] = [(0, 3, 0)]
-            continue
+            # the code under test panicked on this input. Engines whose inputs have a validity
+            # condition decided in Coq supply `panic_result` (an empty observation): Coq then says
+            # "invalid input" (4) or lets the monitor fail (1). Everywhere else a panic on a
+            # generated input is a violation with that input as the replay.
+            if hasattr(P, "panic_result"):
+                r = dict(P.panic_result(c), harness_panic=r["harness_panic"], id=c["id"])
+                o.results[c["id"]] = r
+                o.panicked.add(c["id"])
+            else:
+                o.rows[c["id"]] = [(0, 1, 0)]
+                continue
         try:
             t = P.term(c, r)
         except Exception as ex:  # malformed (e.g. over-shrunk) case or unexpected result shape
@@ -49,6 +59,8 @@ def evaluate(P, binp, cases, tag="main"):
     o.problems += problems
     for i, t in terms:
         o.rows[i] = rows.get(i, [(0, 4, 0)] if problems else [(0, 3, 0)])
+        if i in o.panicked and all(code == 0 for _, code, _ in o.rows[i]):
+            o.rows[i] = [(0, 1, 0)]     # a panic can never count as agreement
     return o
 
 
@@ -114,7 +126,7 @@ def main(P, argv):
     notes = []
 
     # 1. proof step
-    proof = V.proof_step(prop)
+    proof = V.proof_step(prop, extra_targets=[m.replace('.', '/') + '.vo' for m in P.coq_imports])
     log("[%s] proof step: %d/%d theorems discharged%s" % (
         prop, proof["discharged"], proof["obligations"], "" if proof["ok"] else " PROBLEMS: " + "; ".join(proof["problems"])))
     chk = None
